@@ -163,7 +163,7 @@ class ParserModel(object):
                     fn.var_names[ph.res] = 'state'
         self.states = sorted(v for v, _ in self.state_switch.cases)
         self.mod_sets = ctx.mod_sets
-        self.ex = sym.Explorer(ctx.modules, inline=(), max_visits=2, max_paths=20000, mod_sets=self.mod_sets)
+        self.ex = sym.Explorer(ctx.modules, inline=callback_wrappers(ctx), max_visits=2, max_paths=20000, mod_sets=self.mod_sets)
         self._table = {}
 
     def state_constants(self):
@@ -291,6 +291,24 @@ class ParserModel(object):
         for s in states:
             for t in toks:
                 yield s, t, self.transitions(s, t)
+
+
+def callback_wrappers(ctx):
+    """small helper functions that only wrap a user-callback call (e.g. a factored-out
+    'if (opt && opt->validcb) return opt->validcb(cfg, opt);'): analysed as part of their caller"""
+    out = set()
+    keep = {'cfg_setopt', 'call_function', 'cfg_error', 'cfg_parse_internal', 'cfg_free_value', 'cfg_print_pff_indent',
+            'cfg_opt_print_pff_indent', 'cfg_setnint', 'cfg_setnfloat', 'cfg_setnstr', 'cfg_include'}
+    for f in ctx.confuse.funcs.values():
+        if f.name in keep:
+            continue
+        n = sum(1 for _ in f.instrs())
+        if n > 60:
+            continue
+        ind = [x for x in f.calls() if x.callee_name() is None]
+        if ind and not any(True for _ in f.calls('cfg_parse_internal')):
+            out.add(f.name)
+    return out
 
 
 def _is_null_assumption(cnd, truth):
